@@ -18,6 +18,18 @@ def run(ctx):
                        "stable x {exact, sampling} x threads in {1..8,16,20} x oversampling x shim schedule (random, PCT, run-first); non-trivial = n >= 2")
     tlc_mc(ctx, SD, "MC_SortA", "mc_sorta.cfg", workers=8, coverage=False, timeout=3000,
            cfg_text="CONSTANTS MaxN = %d\n Keys = {1,2,3}\nSPECIFICATION Spec\nINVARIANTS StableUnique SomeSorted\nCHECK_DEADLOCK FALSE\n" % (4 if quick else 5))
+    # PMergesortI: the phases of parallel_sort_mwms_pu, every overlap of phases of different threads; barriers switched off must be refuted
+    PM = ("CONSTANTS T = %d\n N = %d\n Keys = {1, 2}\n Sampling = %s\n UseB2 = %s\n UseB3 = %s\nSPECIFICATION Spec\n"
+          "INVARIANTS NoConflict PiecesOk SortedPerm StableResult TemporariesDestroyedOnce\n%sCHECK_DEADLOCK FALSE\n")
+    live = "PROPERTY Terminates\n"
+    for (t, n, smp, lv) in ([(2, 4, "FALSE", live), (3, 5, "FALSE", live), (2, 4, "TRUE", live)] if quick else
+                            [(2, 4, "FALSE", live), (3, 5, "FALSE", live), (3, 6, "FALSE", live), (4, 6, "FALSE", ""), (2, 4, "TRUE", live), (2, 5, "TRUE", live), (3, 5, "TRUE", "")]):
+        tlc_mc(ctx, SD, "PMergesortI", "mc_pmsort_run.cfg", workers=NCPU, coverage=False, timeout=3000, xmx="12g", cfg_text=PM % (t, n, smp, "TRUE", "TRUE", lv))
+    for (b2, b3) in (("FALSE", "TRUE"), ("TRUE", "FALSE")):
+        r = tlc_mc(ctx, SD, "PMergesortI", "mc_pmsort_neg.cfg", workers=NCPU, coverage=False, timeout=3000, expect_ok=False, cfg_text=PM % (2, 4, "FALSE", b2, b3, ""))
+        if r["ok"] or " is violated" not in r["out"]:
+            raise InternalError("negative self-test: PMergesortI without barrier (UseB2=%s UseB3=%s) does not violate NoConflict" % (b2, b3))
+    ctx.cov["negative_self_tests"] = 2
     lines = []
     for n in range(0, 7 if quick else 8):
         for ks in itertools.product((1, 2) if quick else (1, 2, 3), repeat=n):
